@@ -133,8 +133,8 @@ def call_filter(flt: Any, objectives: np.ndarray, constraints: np.ndarray | None
 
 
 def exact_key(values: np.ndarray, sort: list[int], w: np.ndarray) -> np.ndarray:
-    if w.size > 1:
-        return np.array([float(sum(Fraction(float(values[i, s])) * Fraction(float(w[s])) for s in sort))
+    if w.size > 1:  # (an objective with weight zero has no say in the ranking, whatever its values - also infinite ones)
+        return np.array([float(sum(Fraction(float(values[i, s])) * Fraction(float(w[s])) for s in sort if w[s] != 0))
                          for i in range(values.shape[0])])
     return values[:, sort[0]].astype(np.float64)
 
@@ -179,6 +179,12 @@ def exhaustive_shard(item: dict[str, Any]) -> Collector:
         spelling = SPELLINGS[w_i % len(SPELLINGS)]
         cfg = EnOptConfig.model_validate(make_sort_config(n, flavour, first, last, cfg_w, spelling=spelling))
         flt = _MANAGER.get_plugin("realization_filter", cfg.realization_filters[0].method).create(cfg, 0)
+        # (objective flavour, n <= 4) the same orderings once more next to a monitored objective - weight zero, but named in the sort
+        # list - that is infinite for every other realization
+        cfg_inf = flt_inf = None
+        if flavour == "objective" and n <= 4:  # noqa: PLR2004
+            cfg_inf = EnOptConfig.model_validate(make_sort_config(n, flavour, first, last, cfg_w, [1.0, 0.0], [0, 1], spelling=spelling))
+            flt_inf = _MANAGER.get_plugin("realization_filter", cfg_inf.realization_filters[0].method).create(cfg_inf, 0)
         for mask in masks:
             failed = np.array(mask, dtype=bool)
             m = int(np.count_nonzero(~failed))
@@ -193,6 +199,13 @@ def exhaustive_shard(item: dict[str, Any]) -> Collector:
                 proper = m >= 2 and not (first == 0 and last >= m - 1)  # noqa: PLR2004
                 col.case((n, flavour, first, last, mask, perm), nontrivial=proper,
                          classes=(flavour, f"m={m}", "emptied" if first >= m else "nonempty"), sample=case)
+                if flt_inf is not None:
+                    second = [float("inf") if i % 2 == 0 else (float("-inf") if i % 3 == 0 else 0.5) for i in range(n)]
+                    case2 = {"kind": "direct", "n": n, "flavour": flavour, "failed": list(mask), "values": [[v, s_] for v, s_ in zip(values.tolist(), second)],
+                             "first": first, "last": last, "weights": cfg_w, "spelling": spelling, "obj_weights": [1.0, 0.0], "sort": [0, 1]}
+                    guard_call(col, case2, lambda: run_direct(case2, flt_inf, cfg_inf))  # noqa: B023
+                    col.case((n, "objective+monitored-infinite", first, last, mask, perm), nontrivial=proper,
+                             classes=("objective+monitored-infinite", f"m={m}"), sample=case2)
     col.extra["exhaustive"] = True
     return col
 
@@ -332,6 +345,17 @@ def hypothesis_shard(item: dict[str, Any]) -> Collector:
                         case["obj_weights"][(neg + 1) % k_n] = 3.0
                 case["sort"] = draw(st.permutations(sorted(draw(st.sets(st.integers(0, k_n - 1), min_size=1)))))
                 case["values"] = [[draw(value) for _ in range(k_n)] for _ in range(n)]
+                if draw(st.integers(0, 3)) == 0:
+                    # a monitored objective (weight zero) among the ranked ones, with infinite values for some realizations
+                    zero = draw(st.integers(0, k_n - 1))
+                    case["obj_weights"][zero] = 0.0
+                    if sum(case["obj_weights"]) <= 0:
+                        case["obj_weights"][(zero + 1) % k_n] = 3.0
+                    case["sort"] = sorted({*case["sort"], zero, (zero + 1) % k_n})
+                    for row in case["values"]:
+                        if draw(st.booleans()):
+                            row[zero] = draw(st.sampled_from([float("inf"), float("-inf")]))
+                    case["infinite"] = True
             else:
                 case["values"] = draw(st.lists(value, min_size=n, max_size=n))
             return case
